@@ -7,7 +7,7 @@ ID = "C03"
 ALGOS = ["ff", "ffd", "bf", "bfd", "bc"]
 RULE = ("bounded-exhaustive: every item list of length 1..4 over {0,1,2,3,5} with bin size in {5,6} (rotating subset in the quick tier) "
         "x 5 packers; structured random packing instances (thresholds C/2, C/3 +-1, exact fills, zeros, perfect packings) with n <= 9 "
-        "(bin completion n <= 8), formats list/array/dict/names+valueof (bin completion: list/array only, named input is a known finding), "
+        "(bin completion n <= 8), formats list/array/dict/names+valueof (all packers), "
         "dyadic fractions v/2^j for the fit heuristics, output types pst/sums/bincount/partition. Non-trivial: >= 3 items and the "
         "implementation returns >= 2 bins. Distinct by (port, params).")
 EXPLANATION = ("prtpy.pack outputs compared with the Gallina model (canonical form: multiset of (sum, multiset of values)) and judged by the "
@@ -30,10 +30,7 @@ def units(rng, tier):
         C, vals, fam = gen.packing_instance(rng, nmax=9)
         for a in ALGOS:
             v = vals[:8] if a == "bc" else vals
-            if a == "bc":
-                fmt = rng.choice(["list", "list", "array"])
-            else:
-                fmt = rng.choice(gen.FORMATS)
+            fmt = rng.choice(gen.FORMATS)
             out = rng.choice(["pst", "pst", "pst", "sums", "bincount", "partition", "pas"])
             us.append(pack_unit(a, C, v, rng, fmt=fmt, out=out, family=fam))
             if out != "pst" and rng.random() < 0.5:
